@@ -135,6 +135,9 @@ func ResolveAs(e *Env, ctx context.Context, rt reflect.Type) (reflect.Value, err
 }
 
 func resolveCtx(e *Env, ctx context.Context, rt reflect.Type) []reflect.Value {
+	if ce := ctxEnv(ctx); ce != nil {
+		e = ce // the request carries its own Env (several requests in one execution)
+	}
 	path, _, object, field := pathString(ctx)
 	e.logCall(path + "|" + object + "." + field)
 	e.Event("start " + path)
